@@ -3,6 +3,7 @@ package c02
 
 import (
 	"fmt"
+	"strconv"
 	"strings"
 	"time"
 
@@ -202,6 +203,57 @@ func fnSequence() *run.Fn {
 		}
 		return out
 	}}
+}
+
+// parsesAs reports whether every one of exactly n '/'-separated fields is accepted by strconv.ParseInt(s, 10, 64)
+// (so "041", "+3", "-0" count: gen.WellFormed only knows the canonical spelling)
+func parsesAs(s string, n int) bool {
+	fs := strings.Split(s, "/")
+	if len(fs) != n {
+		return false
+	}
+	for _, f := range fs {
+		if _, err := strconv.ParseInt(f, 10, 64); err != nil {
+			return false
+		}
+	}
+	return true
+}
+
+// a well-formed ID with zooms in 0..35 whose x, y or f lies outside the grid (outside the property's quantifier; the library clamps the row
+// and wraps the column): mostly inside the bound where the entry judges it, sometimes beyond (class "skipped"); never a long wrap loop
+func outOfGrid(g *Gen, id id5) (id5, string) {
+	ww := int64(1) << uint(id.h)
+	vv := int64(1) << uint(id.v)
+	tag := "out-of-grid"
+	switch g.Intn(8) {
+	case 0:
+		id.x = g.Pick(ww, ww+1, 2*ww-1, 2*ww, 3*ww+id.x, 23, 1<<40)
+	case 1:
+		id.x = g.Pick(-1, -ww, -ww-1, -2*ww+id.x, -3)
+	case 2:
+		id.y = g.Pick(-1, -5, ww, ww+3, 2*ww, 3665759+ww, 1<<40)
+	case 3:
+		id.f = g.Pick(vv, vv+1, -vv-1, 3*vv, -5*vv, 1<<40)
+	case 4:
+		id.x, id.y = 23+ww, 3665759+ww
+	case 5:
+		id.x, id.y, id.f = -1, -1, -vv-1
+	case 6: // beyond the judged bound: skipped (positive x and any y are cheap for the library)
+		tag = "out-of-grid-skipped"
+		switch g.Intn(3) {
+		case 0:
+			id.x = 1<<40 + 1 + g.Int63n(1<<50)
+		case 1:
+			id.y = g.Pick(1<<40+1, -(1<<40)-1, 1<<62)
+		default:
+			id.f = g.Pick(1<<40+1, -(1<<41))
+		}
+	default:
+		id.x = ww + g.Int63n(4*ww+1)
+		id.y = g.Int63n(4*ww+1) - ww
+	}
+	return id, tag
 }
 
 // another spelling of the same integer that strconv.ParseInt accepts: sign, leading zeros
@@ -519,6 +571,35 @@ func init() {
 				related(r, g, id, opt)
 				continue
 			}
+			if i%50 == 9 { // 2 %: well-formed IDs outside the grid, canonical or respelled, through every public entry (total entries: judged or "skipped")
+				j, tag := outOfGrid(g, id)
+				tg := []string{tag, Tag("hzoom=%d", j.h)}
+				switch g.Intn(4) {
+				case 0:
+					j.v = j.h
+					s := j.sid()
+					if g.Chance(0.4) {
+						s = j.sidRespelled(g)
+					}
+					r.Run(run.Case{Prop: "C02", Fn: "GetPointOnSpatialId", Tags: append(tg, "sid"), Trivial: true, Args: []w.Val{w.S(s), w.I(opt)}})
+				case 1:
+					r.Run(run.Case{Prop: "C02", Fn: "CentreRoundTrip", Tags: append(tg, "roundtrip"), Trivial: true, Args: []w.Val{w.S(j.eid()), w.B(false)}})
+				case 2:
+					fn := "VertexHook"
+					if g.Chance(0.5) {
+						fn = "CentreHook"
+					}
+					r.Run(run.Case{Prop: "C02", Fn: fn, Tags: append(tg, "hook"), Trivial: true,
+						Args: []w.Val{w.I(j.x), w.I(j.y), w.I(j.h), w.I(j.f), w.I(j.v)}})
+				default:
+					s := j.eid()
+					if g.Chance(0.4) {
+						s = j.eidRespelled(g)
+					}
+					r.Run(run.Case{Prop: "C02", Fn: "GetPointOnExtendedSpatialId", Tags: tg, Trivial: true, Args: []w.Val{w.S(s), w.I(opt)}})
+				}
+				continue
+			}
 			if i%20 == 15 { // 5 % of the iterations: a history of 7-20 related calls judged step by step in one case
 				sequence(r, g, id, opt)
 				continue
@@ -570,6 +651,10 @@ func init() {
 				fn := "GetPointOnExtendedSpatialId"
 				if sidForm {
 					fn = "GetPointOnSpatialId"
+				}
+				if kind <= 1 && (sidForm && parsesAs(s, 4) || !sidForm && parsesAs(s, 5)) {
+					// the string mutation happened to produce an ID the library accepts (e.g. a dropped field read as a spatial ID, "041"): not malformed
+					tags = []string{"accepted-spelling-or-out-of-grid"}
 				}
 				r.Run(run.Case{Prop: "C02", Fn: fn, Tags: tags, Trivial: true, Args: []w.Val{w.S(s), w.I(opt)}})
 			case k < 36:
